@@ -15,6 +15,7 @@ fn l_repeat() -> Layout {
   Layout { mappings: vec![m(&[A], &[A], Repeat::Disabled), m(&[B], &[B], Repeat::Special { keys: vec![LEFTCTRL, C], delay_ms: 130, interval_ms: 30 })] }
 }
 fn l_out_key() -> Layout { use KeyCode::*; Layout { mappings: vec![m(&[B], &[D], Repeat::Special { keys: vec![E], delay_ms: 130, interval_ms: 30 }), m(&[A], &[C], Repeat::Normal)] } }
+fn l_edge() -> Layout { use KeyCode::*; Layout { mappings: vec![m(&[B], &[B], Repeat::Special { keys: vec![C], delay_ms: 0, interval_ms: 1 }), m(&[A], &[A], Repeat::Special { keys: vec![LEFTSHIFT, C], delay_ms: 1, interval_ms: 2147483 })] } }
 fn l_chord() -> Layout { use KeyCode::*; Layout { mappings: vec![m(&[CAPSLOCK], &[], Repeat::Normal), m(&[CAPSLOCK, J], &[LEFT], Repeat::Normal)] } }
 fn l_two_repeats() -> Layout {
   use KeyCode::*;
@@ -54,6 +55,7 @@ fn families(id: &str, tier: Tier) -> Vec<BFamily<'static>> {
       if !q { add("same layout, deviation bound 2", l_repeat(), cfg(&[A, B, LEFTCTRL], 4, 0, 2, 3, 30)); add("same layout over {B,LEFTCTRL}, up to 6 time-outs", l_repeat(), cfg(&[B, LEFTCTRL], 4, 0, 1, 6, 30)); }
       add("same layout with up to two tablet events", l_repeat(), cfg(&[B, LEFTCTRL], l, 2, if q { 0 } else { 1 }, if q { 2 } else { 3 }, 30));
       add("B->D Special{[E],130,30} over {B,D}: the output key of the repeating mapping is pressed physically", l_out_key(), cfg(&[B, D], l, 0, if q { 0 } else { 1 }, t, 30));
+      add("numeric edge: B->B Special{[C],0,1} (zero delay, 1 ms interval) over {B,A}", l_edge(), cfg(&[B, A], if q { 3 } else { 4 }, 0, if q { 1 } else { 1 }, if q { 4 } else { 6 }, 1));
       add("three Special mappings (chords [LEFTCTRL,C], [C,LEFTCTRL,B], []) over {B,J,K}", l_two_repeats(), cfg(&[B, J, K], if q { 4 } else { 5 }, 0, if q { 0 } else { 1 }, if q { 3 } else { 3 }, 10));
       if !q { add("super-dvorak repeat keys over {K,J,LEFTCTRL}", l_super_dvorak(), cfg(&[K, J, LEFTCTRL], 4, 0, 1, 4, 30)); }
     }
